@@ -239,7 +239,13 @@ class Builder:
     def schema(self, d):
         c = self.cinco
         schema = c.Schema(dynamic=True) if d.get("dynamic") else c.Schema()
+        seen = {}
         for key, f in d["fields"]:
+            if f["kind"] in ("virtual", "vsetter") and f["kind"] in seen:
+                # ONE virtual field object under two keys of the schema (a computed value kept under an old name
+                # too): each key is a field of the schema and is declared in the stub under its own name
+                setattr(schema, key, seen[f["kind"]])
+                continue
             if f["kind"] == "method":
                 fn = self.function(key, f["sig"])
                 if len(key) % 2 == 0:
@@ -254,8 +260,22 @@ class Builder:
                     # documented fields: the documentation is free text (several lines, several
                     # paragraphs, quotes, a hash sign) and is no part of what C20 says a stub declares
                     fld.help = HELP_TEXT
+                if f["kind"] in ("virtual", "vsetter"):
+                    seen[f["kind"]] = fld
+                if f["kind"] in ("virtual", "vsetter") and len(key) % 2 == 0:
+                    # getters that are callables without annotations or code objects of their own
+                    import functools
+
+                    fld.getter = functools.partial(fld.getter) if len(key) % 4 == 0 else _ConstGetter()
                 setattr(schema, key, fld)
         return schema
+
+
+class _ConstGetter:
+    """A virtual field's getter given as a callable object."""
+
+    def __call__(self, cfg):
+        return 42
 
 
 HELP_TEXT = (
